@@ -232,7 +232,7 @@ func main() {
 	f := gallina.ParseFlags()
 	meta := gallina.NewMeta("C43", f.Seed, f.Tier)
 	meta.Rule = "stream L: corpus + exhaustive enumeration of bucket-count arrays over {0,1,2} (quick: length<=4, thorough: <=5) x offsets -2..1 (thorough -4..3) x scaleDown 0..2 (thorough 0..3) through the real convertBucketsLayout, plus seeded random arrays with zero runs, negative / extreme offsets, scaleDown 0..6,31,40 and both adjustOffset values; stream M: seeded random OTLP metrics (gauge, sum, histogram classic/NHCB, exponential histogram; 1-3 data points; all temporalities; flags; scales -6..MaxInt32) through the real FromMetrics. Non-trivial = L: the array is non-empty and (scaleDown>=1 or it contains a zero); M: at least one sample was appended. Distinct by printed input."
-	cf := &gallina.CaseFile{Dir: f.Out, Type: "case", PerShard: 2500,
+	cf := &gallina.CaseFile{Dir: f.Out, Type: "case", PerShard: 800,
 		Preamble: "From Coq Require Import List ZArith.\nFrom Verif Require Import lib.Int64 model.Otlp corr.CorrC43.\nImport ListNotations.\nOpen Scope Z_scope.\n",
 		Footer:   gallina.StdFooter}
 	id := 0
@@ -526,7 +526,7 @@ func main() {
 	rec(nil)
 
 	// ---- stream L: seeded random ----
-	nL := f.Count(900, 15000)
+	nL := f.Count(900, 8000)
 	for i := 0; i < nL; i++ {
 		r := gen.Fork(f.Seed, i)
 		cs := genCounts(r, 40)
@@ -540,7 +540,7 @@ func main() {
 	}
 
 	// ---- stream M: seeded random metrics ----
-	nM := f.Count(450, 8000)
+	nM := f.Count(450, 4000)
 	for i := 0; i < nM; i++ {
 		r := gen.Fork(f.Seed, 1_000_000+i)
 		replay := fmt.Sprintf("seed=%d index=%d", f.Seed, 1_000_000+i)
